@@ -89,6 +89,11 @@ def floors(tier):
     return {'stored_checked': 800, 'len:embeddings': 16, 'reparsed_equal': 300}
 
 
+def ceilings(tier):
+    # fractions of all evaluations; the unchanged tree stays below about two thirds of each
+    return {'inner_not_parseable_alone': 0.2}
+
+
 TOKEN_RE = re.compile(r"""
       (?P<lc>--[^\n]*)
     | (?P<bc>/\*[\s\S]*?\*/)
